@@ -191,7 +191,8 @@ def run_plot(spec, res):
     as_array = bool(spec.get("as_array"))
     res.ev()
     rd = dict(spec, kind="plot")
-    cls = _cls(spec) + "|" + spec.get("mk", "L")
+    cls = _cls(spec)
+    vcls = "values" if spec.get("vals") else "novalues"
     m = build_maze(spec)
     cl = m.connection_list
     adj = R.adjacency(cl)
@@ -213,7 +214,7 @@ def run_plot(spec, res):
             mp.plot()
             fig, ax = mp.fig, mp.ax
         except Exception as e:
-            res.fail(f"C20|plot|{cls}|raises|{type(e).__name__}", f"plotting raised {type(e).__name__}: {str(e)[:200]} on {_tag(spec)}", rd)
+            res.fail(f"C20|plot|{cls}|{spec.get('mk', 'L')}|raises|{type(e).__name__}", f"plotting raised {type(e).__name__}: {str(e)[:200]} on {_tag(spec)}", rd)
             return
         # ---- the true path the picture must show
         if spec.get("true"):
@@ -226,7 +227,7 @@ def run_plot(spec, res):
             s, e = tuple(spec["start"]), tuple(spec["end"])
             if (true is None or true[0] != s or true[-1] != e or not R.path_valid(adj, true)
                     or len(true) != R.bfs_dist(adj, s)[e] + 1):
-                res.fail(f"C20|constructor|{cls}|true-path", f"true path added for the targeted maze is {true}: not a shortest walk {s}->{e}; on {_tag(spec)}", rd)
+                res.fail(f"C20|constructor|targeted|true-path", f"true path added for the targeted maze is {true}: not a shortest walk {s}->{e}; on {_tag(spec)}", rd)
                 return
         else:
             true = None
@@ -249,7 +250,7 @@ def run_plot(spec, res):
             return
         bad = check_render(im.to_rgba(arr), r, c, ul, adj)
         if bad:
-            res.fail(f"C20|plot-render|{cls}|{bad[0]}", f"{bad[1]} (cmap {im.cmap.name}, norm {im.norm.vmin}..{im.norm.vmax}); on {_tag(spec)}", rd)
+            res.fail(f"C20|plot-render|{vcls}|{bad[0]}", f"{bad[1]} (cmap {im.cmap.name}, norm {im.norm.vmin}..{im.norm.vmax}); on {_tag(spec)}", rd)
             return
         # ---- paths: line through the centres (true path), arrows centre to centre (predicted), start/end markers
         want_lines, want_quivers = [], []
@@ -262,24 +263,24 @@ def run_plot(spec, res):
             want_lines += [(f"predicted path {k + 1} start marker", cs[:1]), (f"predicted path {k + 1} end marker", cs[-1:])]
         got_lines = [_xy(ln.get_xydata()) for ln in ax.lines]
         if len(got_lines) != len(want_lines):
-            res.fail(f"C20|plot-paths|{cls}|n-lines", f"{len(got_lines)} lines drawn, expected {len(want_lines)} ({[w[0] for w in want_lines]}); on {_tag(spec)}", rd)
+            res.fail(f"C20|plot-paths|n-lines", f"{len(got_lines)} lines drawn, expected {len(want_lines)} ({[w[0] for w in want_lines]}); on {_tag(spec)}", rd)
             return
         for (nm, w), g_ in zip(want_lines, got_lines):
             if g_ != w:
                 kind = nm.split(" ")[0] + "-" + nm.split(" ")[-1]
                 sw = "transposed" if g_ == [(y, x) for x, y in w] else "reversed" if g_ == w[::-1] and len(w) > 1 else "wrong"
-                res.fail(f"C20|plot-paths|{cls}|{kind}|{sw}", f"{nm} runs through {g_}, the cell centres are {w} (x = unit_length*(col+0.5), "
+                res.fail(f"C20|plot-paths|{kind}|{sw}", f"{nm} runs through {g_}, the cell centres are {w} (x = unit_length*(col+0.5), "
                          f"y = unit_length*(row+0.5)); on {_tag(spec)}", rd)
                 return
         quivers = [q for q in ax.collections if type(q).__name__ == "Quiver"]
         if len(quivers) != len(want_quivers):
-            res.fail(f"C20|plot-paths|{cls}|n-quivers", f"{len(quivers)} arrow sets drawn for {len(want_quivers)} predicted paths; on {_tag(spec)}", rd)
+            res.fail(f"C20|plot-paths|n-quivers", f"{len(quivers)} arrow sets drawn for {len(want_quivers)} predicted paths; on {_tag(spec)}", rd)
             return
         for (k, cs), q in zip(want_quivers, quivers):
             tails = list(zip(np.asarray(q.X, dtype=float).ravel().tolist(), np.asarray(q.Y, dtype=float).ravel().tolist()))
             heads = [(x + u, y + v) for (x, y), u, v in zip(tails, np.asarray(q.U, dtype=float).ravel().tolist(), np.asarray(q.V, dtype=float).ravel().tolist())]
             if tails != cs[:-1] or heads != cs[1:]:
-                res.fail(f"C20|plot-paths|{cls}|predicted-arrows", f"arrows of predicted path {k + 1} go {list(zip(tails, heads))}, the cell centres are {cs}; on {_tag(spec)}", rd)
+                res.fail(f"C20|plot-paths|predicted-arrows", f"arrows of predicted path {k + 1} go {list(zip(tails, heads))}, the cell centres are {cs}; on {_tag(spec)}", rd)
                 return
         # ---- ASCII export
         res.ev()
@@ -393,7 +394,8 @@ def img_task(t, res):
         for ul in ULS:
             for vals in (False, True):
                 run_img(dict(r=r, c=c, bits=str(bits), ul=ul, vals=vals, mk="L"), res)
-    res.sample(dict(family="image builder", shape=[r, c], first_bits=t["start"], stride=t["stride"], unit_lengths=ULS), cap=1)
+    if (r, c) == (3, 3) and t["start"] == 0:
+        res.sample(dict(family="image builder", shape=[r, c], first_bits=t["start"], stride=t["stride"], unit_lengths=ULS), cap=1)
 
 
 def img_struct_task(t, res):
